@@ -738,7 +738,7 @@ class Engine:
         if isinstance(a, Adt) and isinstance(b, Adt):
             if not (a.base == b.base and a.alt is b.alt):
                 # different origins: fields are resolved on demand through alt
-                return Adt(a.name if a.name != '?' else b.name, {}, None, dict(b.tys, **a.tys), alt=(c, a, b))
+                return Adt(a.name if a.name != '?' else b.name, {}, None, {**b.tys, **a.tys}, alt=(c, a, b))
             keys = set(a.fs) | set(b.fs)
             fs = {}
             for k in keys:
@@ -781,6 +781,10 @@ class Engine:
         if isinstance(a, Ref) and isinstance(b, Ref):
             if a.cell == b.cell and a.path == b.path:
                 return a
+            if a.cell == b.cell and len(a.path) == len(b.path) and all(
+                    x == y or (x[0] == 'f' and y[0] == 'f' and x[1] == y[1] and ('?' in (x[2], y[2]) or x[2] == y[2])) for x, y in zip(a.path, b.path)):
+                # the same place, reached once with and once without a type annotation on a field step
+                return Ref(a.cell, tuple(y if (x[0] == 'f' and x[2] == '?') else x for x, y in zip(a.path, b.path)))
             return Opaque('merge of distinct references')
         if isinstance(a, Seq) and isinstance(b, Seq) and len(a.elems) != len(b.elems) and a.prefix and b.prefix:
             # different capacities (e.g. after a push on one path): positions beyond the shorter
@@ -1115,6 +1119,15 @@ class FnRun:
             # reborrow through a deref: resolve to the pointee's own cell
             if path and path[-1] == ('d',) or any(s[0] == 'd' for s in path):
                 return self.resolve_ref(c, path, mem, guard)
+            if c not in mem and getattr(self, 'havoc_uninit', False):
+                # region / loop-step mode: a borrow of a local that is live at the region start but was not given
+                root = rv[2]
+                while root[0] != 'local':
+                    root = root[1]
+                ty = self.fn.locals.get(root[1])
+                if ty is not None and self.cells.get(root[1]) == c:
+                    mem[c] = E.sym('pre._%d' % root[1], ty, mem)
+                    self.havoced = getattr(self, 'havoced', []) + [root[1]]
             return Ref(c, path)
         if k == 'binop':
             a = self.operand(rv[2], mem, guard)
@@ -1272,7 +1285,7 @@ class FnRun:
             encl[b] = hs
         return succ, rpo, back, encl
 
-    def run(self, start_bb=None, init=None, stop_bbs=()):
+    def run(self, start_bb=None, init=None, stop_bbs=(), stop_stmts=None):
         """returns (return value or None, guard under which the function returns, mem).
 
         With `start_bb` (a loop head) the activation starts there instead of bb0, from the locals in
@@ -1282,7 +1295,9 @@ class FnRun:
         asserts the loop invariant (inductive step from an arbitrary invariant-satisfying state).
 
         `stop_bbs`: blocks at which execution is cut as well (a region of a large function: the paths that
-        reach such a block are collected in `self.stop_states[bb]` and not continued)."""
+        reach such a block are collected in `self.stop_states[bb]` and not continued).
+        `stop_stmts` {bb: k}: likewise, but the cut is inside block bb, before its k-th statement (MIR merges the end of a
+        source-level region with what follows it into one block); collected in `self.stop_states[('stmt', bb)]`."""
         E = self.E
         fn = self.fn
         E.encoded[fn.name] = fn.header
@@ -1329,8 +1344,16 @@ class FnRun:
             body, term = fn.blocks[bb]
             E.stat_states += 1
             try:
-                for st in body:
+                cut_at = (stop_stmts or {}).get(bb)
+                stopped = False
+                for si, st in enumerate(body):
+                    if cut_at is not None and si == cut_at:
+                        self.stop_states.setdefault(('stmt', bb), []).append((guard, mem))
+                        stopped = True
+                        break
                     self.statement(st, mem, guard)
+                if stopped:
+                    continue
                 outs = self.terminator(term, mem, guard)
                 E.stat_edges += len(outs)
             except Unsupported as e:
